@@ -39,10 +39,13 @@ EXPLANATION = ("Theorems (Props/C03.lean, no sorry/axioms): step_wf / history_wf
                "nodes the operation created (without that scope the clause is false in model and library alike: an emptied "
                "taxon-bearing internal node is a new taxon-bearing leaf); shuffle_keeps_leaf_taxa - a permutation; "
                "suppress_keeps_leaf_taxa; heap layer: ofTree_repr, removeChild_repr/_frame/_refines, addChild_repr, "
-               "insertChild_repr, addChild_refines (add_child / insert_child of a NEW childless node only); polytomize_fixpoint, "
-               "dropLeavesFix_fixpoint. Not proved, only modelled and compared with the code every run: heap refinement of "
-               "remove_child(suppress)/parent setter/Edge.collapse/Edge.invert/reseed chain and of add/insert of an existing or "
-               "re-attached node; fuel of the filter_leaf_nodes loop and pruneUp; the error clause (the model has no partially "
+               "insertChild_repr, addChild_refines (add_child / insert_child of a NEW childless node only), reseedChain_refines (the "
+               "edge-inversion chain of reseed_at as written represents the tree-level re-seeding before clean-up; "
+               "reseedAt_refines_partial = the same for reseed_at with both clean-up flags off); polytomize_fixpoint, "
+               "dropLeavesFix_fixpoint, filterLoop_fixpoint, pruneUp_fuel_suffices (fuel of every bounded loop suffices). Not "
+               "proved, only modelled and compared with the code every run: heap refinement of remove_child(suppress)/parent "
+               "setter/Edge.collapse, of the pointer-level clean-up after the inversion chain, and of add/insert of an existing "
+               "or re-attached node; the error clause (the model has no partially "
                "mutated states: judged by the oracle after every raise); clause (c) (oracle only). The driver runs `step` per "
                "operation and `run` on whole histories without node-creating operations.")
 
